@@ -19,6 +19,98 @@ from ..facts import AnalysisError
 TARGETS = ('--lib',)
 
 
+ALLOCATORS = ('::allocate_cluster', '::allocate_clusters')
+
+
+def grant_rule(f, P, rep, rid):
+    """Every host cluster installed as the mapping of a guest cluster (L2Table::map_cluster) out of an
+    allocation lies inside the run the allocator granted: the installed offset is  start + (k << cluster_bits)
+    with (start, count) the allocator's result and k < count proved on every path reaching the install (k = 0:
+    the first cluster of the grant).  A cluster beyond the grant has refcount 0 or another owner."""
+    from ..align import AlignInt, CL
+    from ..absint import short_vn
+    rep.rule(rid, 'a host cluster installed by map_cluster out of an allocation is start + (k << cluster_bits) of the granted run '
+                  '(start, count) with k < count on every path (k = 0 for the first cluster)')
+    rep.assume('the allocator returns non-empty runs: the first cluster of a grant is always owned by the requester (C08.1/C08.5 decide the run itself)')
+    ai = AlignInt(f)
+    last = {}
+
+    def hook(ai_, st, frame, b, bi, t, args):
+        if frame[0] is None:
+            last[(b.path, bi)] = (st, list(args))
+        return None
+    ai.hooks['L2Table::map_cluster'] = hook
+    bodies = [b for b in f.body_list if '::tests::' not in b.path and
+              any((t.get('fn') or '').endswith('L2Table::map_cluster') for _bi, t in b.calls())]
+    for b in bodies:
+        ai.analyze(b.path)
+
+    def peel(v):
+        n = 0
+        while isinstance(v, tuple) and v and v[0] in ('wrap', 'cast') and n < 8:
+            v = v[1]
+            n += 1
+        return v
+
+    def pair_first(v):
+        return v[0] == 'u' and isinstance(v[1], tuple) and v[1] and v[1][0] == 'proj' and tuple(v[1][2]) == (('f', 0),)
+    n = 0
+    for b in bodies:
+        dp = Deps(P, b)
+        for bi, t in b.calls():
+            if not (t.get('fn') or '').endswith('L2Table::map_cluster') or len(t['args']) < 3:
+                continue
+            d = dp.of_operand(t['args'][2], (bi, 10 ** 6))
+            if not any(x[0] == 'fn' and x[1].endswith(ALLOCATORS) for x in d):
+                continue            # not a fresh allocation (e.g. an old mapping put back)
+            site = '%s at %s' % (short(b.path), b.where(bi))
+            rec = last.get((b.path, bi))
+            if rec is None:
+                raise AnalysisError('grant rule: map_cluster in %s is not reached by the value analysis' % site)
+            st, args = rec
+            v = peel(ai.strip(st, args[2]))
+            base, off = v, None
+            if v[0] == 'bin' and v[1] == 'Add':
+                x, y = peel(v[2]), peel(v[3])
+                if pair_first(x):
+                    base, off = x, y
+                elif pair_first(y):
+                    base, off = y, x
+            n += 1
+            if not pair_first(base):
+                ok, why = False, 'the installed offset %s is not start (+ index << cluster_bits) of an allocator result' % short_vn(v)[:140]
+            elif off is None or off == ('c', 0):
+                ok, why = True, 'first cluster of the grant'
+            else:
+                cnt = ('u', ('proj', base[1][1], (('f', 1),)), 'usize')
+                k = None
+                def is_cl(sh):
+                    return sh is not None and peel(ai.strip(st, sh)) == CL
+                if off[0] == 'bin' and off[1] == 'Shl' and is_cl(off[3]):
+                    k = off[2]
+                elif off[0] == 'bin' and off[1] == 'Mul':
+                    for x, y in ((off[2], off[3]), (off[3], off[2])):
+                        if is_cl(ai.pow2_shift(st, y)) or is_cl(ai.pow2_shift(st, peel(y))):
+                            k = x
+                if k is not None and peel(k)[0] != 'bin':
+                    k = peel(k)
+                if k is None:
+                    ok, why = False, 'the offset into the run, %s, is not an index shifted by cluster_bits' % short_vn(off)[:120]
+                else:
+                    try:
+                        ok = ai.prove_le(st, k, cnt, True)
+                    except RecursionError:
+                        ok = False
+                    why = 'index %s %s the granted count' % (short_vn(k)[:80], 'is proved below' if ok else 'is NOT proved below')
+            rep.ob(rid, site, ok, why)
+            if not ok:
+                rep.violation(rid, '%s:%s' % (rid, short(b.path)), b.where(bi),
+                              '%s maps a guest cluster to a host cluster that is not provably inside the run the allocator '
+                              'granted (%s): the cluster beyond the grant is free or owned by something else, two owners share it '
+                              'after the next allocation' % (short(b.path), why))
+    rep.floor('installs of freshly allocated clusters', n, 2)
+
+
 def run(ctx, rep):
     f = ctx.lib
     P = Program(f)
@@ -47,6 +139,7 @@ def run(ctx, rep):
             rep.violation('C08.5', 'C08.5:%s' % fn, where,
                           '%s: %s: the returned run starts at clusters that were already given back, and extends into '
                           'clusters owned by something else' % (fn, detail))
+    grant_rule(f, P, rep, 'C08.6')
     # C08.3
     n = 0
     for b in f.body_list:
